@@ -229,6 +229,71 @@ def work(job):
     return out
 
 
+def concrete_run(kind, method, content, offset, count, arg, profile="debug"):
+    """the S-kernel on concrete values: -> dict(ok, err, value, data) or dict(panic)"""
+    domt, infot, field, bad = KINDS[kind]
+
+    def node_stub(I, text, parent, ctx):
+        return K.mk_obj("ItemStub", None, text=SStr(text))
+    I = K.new_interp(profile, stubs={"%s::node" % infot: node_stub})
+    I.mstubs = {("ItemStub", "as_text"): lambda I, r: Some(r), ("ItemStub", "as_cdata"): lambda I, r: Some(r), ("ItemStub", "unwrap"): lambda I, r: r}
+    state = {}
+
+    def thunk(I):
+        info = K.mk_obj(infot, K.INFO, **{field: kernel.from_pystr(content), "parent_id": NONE, "context": "ctx"})
+        dom = K.mk_obj(domt, K.DOM, data=info)
+        state["info"] = info
+        args = {"length": [], "substring_data": [offset, count], "insert_data": [offset, kernel.from_pystr(arg)], "delete_data": [offset, count],
+                "replace_data": [offset, count, kernel.from_pystr(arg)], "append_data": [kernel.from_pystr(arg)], "set_data": [kernel.from_pystr(arg)]}[method]
+        return I.try_repo_method(dom, method, args)
+    paths = I.explore(thunk)
+    if len(paths) != 1:
+        raise kernel.Unsupported("concrete run forked")
+    p = paths[0]
+    if p["kind"] == "panic":
+        return {"panic": p["msg"]}
+    v = p["value"]
+    out = {"data": kernel.concrete_str(state["info"].fields[field])}
+    if method == "length":
+        out.update(ok=True, value=v)
+    elif isinstance(v, Enum) and v.variant == "Ok":
+        out.update(ok=True, value=kernel.concrete_str(v.fields[0]) if isinstance(v.fields[0], SStr) else None)
+    else:
+        out.update(ok=False, err=repr(v))
+    return out
+
+
+def translator_validation(rp, seed, n):
+    """the interpreter with its std models must agree with the real DOM on concrete cases"""
+    import random
+    rng = random.Random(seed)
+    alphabet = ["a", "b", "\u00e9", "\u3042", "\U0001F600", "\u0301", " ", "-", "]", ">", "x"]
+    done = 0
+    for _ in range(n):
+        kind = rng.choice(list(KINDS))
+        bad = KINDS[kind][3]
+        content = "".join(ch for ch in (rng.choice(alphabet) for _ in range(rng.randrange(0, 6))) if ch not in bad)
+        method = rng.choice(METHODS[:-1])
+        offset = rng.choice([0, 1, 2, len(content), len(content) + 1, 2 ** 64 - 1, rng.randrange(0, 8)])
+        count = rng.choice([0, 1, 2, len(content), 2 ** 64 - 1, 2 ** 64 - 3, rng.randrange(0, 8)])
+        arg = "".join(ch for ch in (rng.choice(alphabet) for _ in range(rng.randrange(0, 3))) if ch not in bad)
+        if kind == "comment" and (content.endswith("-") or arg.endswith("-")):
+            continue
+        pred = concrete_run(kind, method, content, offset, count, arg)
+        real = rp.run({"op": "chardata", "kind": kind, "content": content, "method": method, "offset": offset, "count": count, "arg": arg})
+        same = ("panic" in pred) == ("panic" in real)
+        if same and "panic" not in pred:
+            same = bool(pred.get("ok")) == bool(real.get("ok")) and pred.get("data") == real.get("data")
+            if same and pred.get("ok") and method in ("length", "substring_data"):
+                same = pred.get("value") == real.get("value")
+            if same and not pred.get("ok"):
+                same = ("IndexSizeErr" in pred.get("err", "")) == ("IndexSizeErr" in str(real.get("err")))
+        if not same:
+            raise common.Inconclusive("model mismatch on %s %s(%r, %d, %d, %r): interpreter %s, real %s" % (kind, method, content, offset, count, arg, pred, str(real)[:200]))
+        done += 1
+    return done
+
+
 def spec_concrete(w):
     """DOM Level 1 on concrete values -> expected (ok, value-or-None, data, second)"""
     s = w["content"]
@@ -308,6 +373,12 @@ def main():
     try:
         rp = replay.Replay()
     except replay.ReplayError as e:
+        rep.inconclusive.append(str(e))
+        return rep.finish()
+    try:
+        rep.tv_cases = translator_validation(rp, args.seed, 60 if args.tier == "quick" else 300)
+        rep.extra["translator_validation"] = "%d concrete operations: S-kernel (std models) == real DOM through the replay driver" % rep.tv_cases
+    except (common.Inconclusive, kernel.Unsupported) as e:
         rep.inconclusive.append(str(e))
         return rep.finish()
     jobs = []
